@@ -382,6 +382,50 @@ def run(ctx: Ctx, tier: str) -> Result:
         else:
             res.ok("C04.UNITS", {"only __init__/fire write the statistics": True})
 
+    # the window is worked out once, when the action is built: the configuration it came from is not changed afterwards
+    # behind its back (an in-place update of window_start / window_end would be stored, reported and never applied)
+    from .common import _MUTATORS
+    lac = p.cls(LA)
+    cfg_fields = [attr for (cq, attr), lst in t._attr_store_index().items() if cq == LA
+                  for sf_, v_, _ in lst if sf_ is init and isinstance(v_, ast.Name) and len(init.params) > 3 and v_.id == init.params[3]]
+    win_fields = [attr for (cq, attr), lst in t._attr_store_index().items() if cq == LA
+                  for sf_, v_, _ in lst if sf_ is init and v_ is wctor[0]]
+    if len(cfg_fields) == 1 and len(win_fields) == 1:
+        cf, wfld = cfg_fields[0], win_fields[0]
+        short = cf.split("__")[-1]
+
+        def is_cfg(e):
+            return isinstance(e, ast.Attribute) and isinstance(e.value, ast.Name) and e.value.id == "self" and e.attr in (cf, "__" + short, "_" + short, short)
+        nmeth = 0
+        for c_ in [lac] + p.subclasses.get(LA, []):
+            for lst in c_.methods.values():
+                for m_ in lst:
+                    if m_ is init:
+                        continue
+                    nmeth += 1
+                    writes = []
+                    for n_ in t.nodes_in(m_):
+                        if isinstance(n_, ast.Subscript) and isinstance(n_.ctx, (ast.Store, ast.Del)) and is_cfg(n_.value):
+                            writes.append(n_)
+                        elif isinstance(n_, ast.Call) and isinstance(n_.func, ast.Attribute) and n_.func.attr in _MUTATORS and is_cfg(n_.func.value):
+                            writes.append(n_)
+                        elif isinstance(n_, ast.Attribute) and isinstance(n_.ctx, ast.Store) and is_cfg(n_):
+                            writes.append(n_)
+                    if not writes:
+                        continue
+                    rebuilt = [n_ for n_ in t.nodes_in(m_, ast.Attribute) if isinstance(n_.ctx, ast.Store) and isinstance(n_.value, ast.Name)
+                               and n_.value.id == "self" and n_.attr.split("__")[-1] == wfld.split("__")[-1]]
+                    if rebuilt:
+                        res.ok("C04.WINDOW", {"configuration changed and window rebuilt in": m_.qname})
+                    else:
+                        res.fail(Finding("C04.WINDOW", m_.qname, writes[0], m_.loc(writes[0]), "`%s` changes the configuration of an installed action, but the time window was "
+                                         "worked out from it when the action was built and is not rebuilt here: a changed window_start / window_end is "
+                                         "stored (and reported) while hits are still checked against the old window" % norm(writes[0])[:70]))
+        res.ok("C04.WINDOW", {"configuration of an action is fixed once its window is built (methods looked at)": nmeth})
+    else:
+        res.fail(Finding("C04.WINDOW", init.qname, "<self.config = config; self.window = TracepointWindow(...)>", init.loc(),
+                         "the action does not keep its configuration and its window in one field each (%s, %s)" % (cfg_fields, win_fields)))
+
     # ---------------- STATE
     state_rule(ctx, res, "C04.STATE")
     identity_rule(ctx, res, "C04.STATE")
